@@ -111,6 +111,7 @@ pub fn check(c: &Case) -> CheckResult {
             o.class_if(*rw == 0 || *rh == 0, "zero-size");
             o.class_if(*rw < 0 || *rh < 0, "negative-size");
             o.class_if((x2.min(c.w) - x1.max(0)) > 256 && !matches!(src, SrcSpec::Solid(_)), "span-beyond-256-with-varying-source");
+            o.class_if((x2.min(c.w) - x1.max(0)) >= 2048, "span-of-2048-pixels-or-more");
             o.class_if(opts.blend != SRC_OVER, "non-srcover");
             o.class(src.kind());
             o.class("kind:fill_rect");
@@ -166,7 +167,7 @@ pub fn strategy(ctx: &Ctx) -> BoxedStrategy<Case> {
     let ctx = ctx.clone();
     // mostly small surfaces; one in twenty-five has rows or columns longer than 256 pixels (block-wise shading,
     // narrowed counters), where a span of the fast path is longer than any fixed-size scratch block
-    prop_oneof![24 => (1i32..=12, 1i32..=12), 1 => prop_oneof![(257i32..=330, 1i32..=3), (1i32..=3, 257i32..=330)]]
+    prop_oneof![48 => (1i32..=12, 1i32..=12), 2 => prop_oneof![(257i32..=330, 1i32..=3), (1i32..=3, 257i32..=330)], 1 => prop_oneof![(prop::sample::select(vec![1023i32, 1024, 1025, 2047, 2048, 2049, 2060, 4095, 4096, 4097]), 1i32..=2), (1i32..=2, prop::sample::select(vec![1024i32, 2047, 2048, 2049, 4096]))]]
         .prop_flat_map(move |(w, h)| {
             let ext = w.max(h) as f32;
             // an axis of the rectangle: (origin, size); 6 of 10 overlap the surface by construction, then the
@@ -204,7 +205,7 @@ pub fn property(ctx: &Ctx) -> Property {
     let c = ctx.clone();
     Property {
         id: "C14",
-        rule: "cases: integer rectangles (origin in [-4,w+4], sizes in [-3,w+6] incl. zero and negative; one axis in ten with an edge 1000..4000 px off the surface) on 1..12 px surfaces (one in twenty-five 257..330 px long or tall, with images up to 300 px wide) with random non-empty premultiplied contents, all 28 blend modes, solid/image/gradient sources, alpha in [0,1], AA and aliased; plus clear(c) and draw_image_at at integer positions. Oracle: bit-exact differential between four routes (fill_rect fast path; fill(PathBuilder::rect); fill_rect under a surface-covering clip rect; under a larger clip rect), one case in eight with all routes running inside a layer that was pushed under a small clip rectangle popped again before the draw (layer narrower than the surface, clip stack empty); clear under clip vs not; draw_image_at vs fill with translated image. Non-trivial: rectangle covers part but not all of the surface and (mode != SrcOver or source not an opaque solid at alpha 1); distinct by hash of the case.",
+        rule: "cases: integer rectangles (origin in [-4,w+4], sizes in [-3,w+6] incl. zero and negative; one axis in ten with an edge 1000..4000 px off the surface) on 1..12 px surfaces (one in twenty-five 257..330 px long or tall, with images up to 300 px wide; one in fifty 1023..4097 px long or tall, at and next to powers of two) with random non-empty premultiplied contents, all 28 blend modes, solid/image/gradient sources, alpha in [0,1], AA and aliased; plus clear(c) and draw_image_at at integer positions. Oracle: bit-exact differential between four routes (fill_rect fast path; fill(PathBuilder::rect); fill_rect under a surface-covering clip rect; under a larger clip rect), one case in eight with all routes running inside a layer that was pushed under a small clip rectangle popped again before the draw (layer narrower than the surface, clip stack empty); clear under clip vs not; draw_image_at vs fill with translated image. Non-trivial: rectangle covers part but not all of the surface and (mode != SrcOver or source not an opaque solid at alpha 1); distinct by hash of the case.",
         assumptions: vec!["the general route (rasterised rectangle + mask blitters) is itself judged by C01/C02/C03"],
         parts: vec![part("routes", 250_000, 4_000_000, move || strategy(&c), check)],
         min_class_fraction: vec![("routes", "rect-partly-covers-surface", 0.3), ("routes", "non-srcover", 0.5), ("routes", "negative-size", 0.05), ("routes", "rect-off-surface", 0.2), ("routes", "span-beyond-256-with-varying-source", 0.001), ("routes", "inside-narrow-layer-with-empty-clip-stack", 0.05)],
